@@ -1,6 +1,7 @@
 package main
 
 import (
+	"regexp"
 	"fmt"
 	"go/ast"
 	"go/constant"
@@ -523,6 +524,45 @@ func (p *GoProg) GoVersionAtLeast(major, minor int) bool {
 	}
 	return false
 }
+
+// FileGoVersionAtLeast: the language version in force for the file that contains n — the module's go directive, unless
+// the file's //go:build line names a go1.N release tag, which (since Go 1.21) sets the file's language version to 1.N.
+func (p *GoProg) FileGoVersionAtLeast(n ast.Node, major, minor int) bool {
+	for _, f := range p.Files {
+		if f.Pos() <= n.Pos() && n.Pos() < f.End() {
+			for _, cg := range f.Comments {
+				if cg.Pos() > f.Package {
+					break
+				}
+				for _, cm := range cg.List {
+					if !strings.HasPrefix(cm.Text, "//go:build") {
+						continue
+					}
+					best := -1
+					for _, m := range reGoTag.FindAllStringSubmatch(cm.Text, -1) {
+						if m[1] == "!" {
+							continue
+						}
+						var v int
+						fmt.Sscanf(m[2], "%d", &v)
+						if v > best {
+							best = v
+						}
+					}
+					if best >= 0 {
+						if best < 21 && p.GoVersionAtLeast(1, 21) {
+							best = 21
+						}
+						return 1 > major || (1 == major && best >= minor)
+					}
+				}
+			}
+		}
+	}
+	return p.GoVersionAtLeast(major, minor)
+}
+
+var reGoTag = regexp.MustCompile(`(!?)\bgo1\.(\d+)\b`)
 
 // LocalConstInt returns the value of the integer constant `name` declared inside fd (0 if absent).
 func (p *GoProg) LocalConstInt(fd *ast.FuncDecl, name string) int64 {
